@@ -184,6 +184,9 @@ func (m *Model) CheckObs(u *universe, o Obs) string {
 		if o.OK {
 			return fmt.Sprintf("want failure %v, got success %s", codes, o.Text())
 		}
+		if m.AnyFailCode {
+			return ""
+		}
 		if empty {
 			codes = append(codes, "NAME_UNKNOWN")
 		}
